@@ -121,3 +121,68 @@ def run_watchdog(coro_fn, timeout: float = 20.0) -> Any:
             pass
         asyncio.set_event_loop(None)
         loop.close()
+
+
+def run_forked(fn, timeout: float = 20.0) -> Any:
+    """run `fn()` in a forked child process and return its (picklable) result; the child is killed and `Hang` raised when it
+    does not answer within `timeout` seconds of wall clock. For code that can spin without ever yielding to the event loop
+    (e.g. a copy loop on a stream at EOF), where an in-process asyncio timeout cannot fire."""
+    import pickle
+    import select
+    import time
+
+    r, w = os.pipe()
+    pid = os.fork()
+    if pid == 0:  # child
+        status = 0
+        try:
+            os.close(r)
+            try:
+                payload = pickle.dumps(("ok", fn()))
+            except BaseException as e:  # noqa: BLE001
+                payload = pickle.dumps(("exc", f"{type(e).__name__}: {e}"))
+            with os.fdopen(w, "wb") as f:
+                f.write(payload)
+        except BaseException:  # noqa: BLE001
+            status = 1
+        finally:
+            os._exit(status)
+    os.close(w)
+    chunks = []
+    deadline = time.time() + timeout
+    try:
+        while True:
+            left = deadline - time.time()
+            if left <= 0:
+                os.kill(pid, signal.SIGKILL)
+                os.waitpid(pid, 0)
+                raise Hang(f"no result after {timeout}s (child killed)")
+            ready, _, _ = select.select([r], [], [], min(left, 1.0))
+            if ready:
+                b = os.read(r, 1 << 20)
+                if not b:
+                    break
+                chunks.append(b)
+    finally:
+        os.close(r)
+    os.waitpid(pid, 0)
+    if not chunks:
+        raise RuntimeError("forked case died without a result")
+    kind, val = pickle.loads(b"".join(chunks))
+    if kind == "exc":
+        raise RuntimeError(val)
+    return val
+
+
+def run_alarm(fn, timeout: float = 20.0) -> Any:
+    """run `fn()` in this process under a SIGALRM watchdog (main thread only): `Hang` is raised *inside* `fn` when the wall-clock
+    bound expires — works for pure-Python busy loops that never yield to an event loop, costs nothing (no fork)."""
+    def on_alarm(signum, frame):
+        raise Hang(f"no result after {timeout}s")
+    old = signal.signal(signal.SIGALRM, on_alarm)
+    signal.setitimer(signal.ITIMER_REAL, timeout)
+    try:
+        return fn()
+    finally:
+        signal.setitimer(signal.ITIMER_REAL, 0)
+        signal.signal(signal.SIGALRM, old)
